@@ -35,12 +35,15 @@ Inductive sop :=
 | SAll (r : list (N * N)).
 Inductive sstep := Ss (o : sop) (len : Z).
 
-(* Grant j: the test released segment j's lock (None: the start, nothing released)
-   and took it back once every thread was parked in front of a lock or had returned;
-   then: the counter, the non-empty segments in ForEach order, which threads have
-   returned, how many threads wait in front of which lock *)
+(* One action of the test and what it saw afterwards.
+   Rel j: it released segment j's lock and took it back once every started thread
+   was parked in front of a lock or had returned; Go t: it started thread t (which
+   runs up to the first lock it needs).  Seen: the counter, the non-empty segments in
+   ForEach order, which threads have returned, how many threads wait in front of
+   which lock. *)
+Inductive gact := Rel (j : nat) | Go (t : nat).
 Inductive gstep :=
-| Grant (j : option nat) (count : Z) (segs : list (nat * list (N * N))) (done : list bool) (waiting : list (nat * nat)).
+| Grant (a : gact) (count : Z) (segs : list (nat * list (N * N))) (done : list bool) (waiting : list (nat * nat)).
 
 Inductive case :=
   (* NewUInt64Map(cap): observed len(data), growAt; history; final non-empty slots (index,key,value), final len(data) *)
@@ -55,7 +58,7 @@ Inductive case :=
      sequential SetWithCap prefix, one program per thread, the grants with what was
      observed after each, what the readers returned *)
 | CaseSched (prefix : list (N * N * Z)) (progs : list (list call))
-            (steps : list gstep) (reads : list (nat * obs)).
+            (steps : list gstep) (reads : list (nat * obs)) (complete : bool).
 
 (* ------------------------------------------------------------- helpers *)
 Definition dig_p : N := 1099511628211%N.
@@ -183,16 +186,73 @@ Definition stopped (free : option nat) (s : cstate) (tid : nat) : bool :=
   | Some t => negb (onat_eqb free (Some t))
   | None => false
   end.
-Fixpoint explore (rescan : bool) (fuel : nat) (free : option nat) (tids : list nat) (s : cstate) : list cstate :=
+(* injective encoding of a state (for removing duplicates among the outcomes) *)
+Definition b2z (b : bool) : Z := if b then 1%Z else 0%Z.
+Definition pairs_code (l : list (N * N)) : list Z :=
+  Z.of_nat (length l) :: flat_map (fun p => [Z.of_N (fst p); Z.of_N (snd p)]) l.
+Definition optN_code (o : option N) : list Z := match o with Some x => [1%Z; Z.of_N x] | None => [0%Z] end.
+Definition call_code (c : call) : list Z :=
+  match c with
+  | CSwc k v cap => [0%Z; Z.of_N k; Z.of_N v; cap]
+  | CSet k v => [1%Z; Z.of_N k; Z.of_N v]
+  | CPia k v => [2%Z; Z.of_N k; Z.of_N v]
+  | CDel k => [3%Z; Z.of_N k]
+  | CCas k o v => [4%Z; Z.of_N k; Z.of_N o; Z.of_N v]
+  | CCad k o => [5%Z; Z.of_N k; Z.of_N o]
+  | CClear => [6%Z]
+  | CGet k => [7%Z; Z.of_N k]
+  | CAll => [8%Z]
+  end.
+Definition pc_code (p : pc) : list Z :=
+  match p with
+  | Idle => [0%Z]
+  | SwcLock k v cap => [1%Z; Z.of_N k; Z.of_N v; cap]
+  | SwcAdd k cap isnew => [2%Z; Z.of_N k; cap; b2z isnew]
+  | SwcLoad k cap => [3%Z; Z.of_N k; cap]
+  | SwcSub k cap d => [4%Z; Z.of_N k; cap; d]
+  | SpLoad k cap i deficit => [5%Z; Z.of_N k; cap; Z.of_nat i; deficit]
+  | SpEvict k cap i deficit => [6%Z; Z.of_N k; cap; Z.of_nat i; deficit]
+  | SpSub k cap i deficit d => [7%Z; Z.of_N k; cap; Z.of_nat i; deficit; d]
+  | OpLock c => 8%Z :: call_code c
+  | OpAdd sg delta => [9%Z; Z.of_nat sg; delta]
+  | ClrSeg i => [10%Z; Z.of_nat i]
+  | ClrSub i d => [11%Z; Z.of_nat i; d]
+  | RdGet k => [12%Z; Z.of_N k]
+  | FeSeg i acc => 13%Z :: Z.of_nat i :: pairs_code acc
+  end.
+Definition table_code (t : table) : list Z :=
+  pairs_code (t_data t) ++ [t_size t; t_growAt t; b2z (t_bad t)] ++ optN_code (t_zero t).
+Definition obs_code (o : nat * obs) : list Z :=
+  Z.of_nat (fst o) :: match snd o with ObGet k r => 0%Z :: Z.of_N k :: optN_code r | ObAll l => 1%Z :: pairs_code l end.
+Definition state_code (s : cstate) : list Z :=
+  sm_count (c_map s) :: c_exh s :: Z.of_nat (length (c_thr s)) ::
+  flat_map (fun th => pc_code (fst th) ++ (Z.of_nat (length (snd th)) :: flat_map call_code (snd th))) (c_thr s) ++
+  flat_map (fun l => match l with Some t => [1%Z; Z.of_nat t] | None => [0%Z] end) (c_locks s) ++
+  (Z.of_nat (length (c_obs s)) :: flat_map obs_code (c_obs s)) ++
+  flat_map table_code (sm_segs (c_map s)).
+Fixpoint zs_eqb (a b : list Z) : bool :=
+  match a, b with [], [] => true | x :: r, y :: s => Z.eqb x y && zs_eqb r s | _, _ => false end.
+Fixpoint dedup (seen : list (list Z)) (l : list cstate) : list cstate :=
+  match l with
+  | [] => []
+  | s :: r => let c := state_code s in
+              if existsb (zs_eqb c) seen then dedup seen r else s :: dedup (c :: seen) r
+  end.
+(* all outcomes of letting the threads [tids] run with lock [free] available: breadth
+   first over the atomic steps, duplicates removed in every layer *)
+Fixpoint explore (rescan : bool) (fuel : nat) (free : option nat) (tids : list nat)
+                 (frontier : list cstate) (acc : list cstate) : list cstate :=
   match fuel with
-  | O => []
+  | O => acc
   | S f =>
-      match filter (fun t => negb (stopped free s t)) tids with
-      | [] => [s]
-      | movable => flat_map (fun t => match step go_mix go_sidx go_eoff rescan s t with
-                                      | Some s' => explore rescan f free tids s'
-                                      | None => []
-                                      end) movable
+      match frontier with
+      | [] => acc
+      | _ =>
+          let movable s := filter (fun t => negb (stopped free s t)) tids in
+          let fin := filter (fun s => match movable s with [] => true | _ => false end) frontier in
+          let next := flat_map (fun s => flat_map (fun t => match step go_mix go_sidx go_eoff rescan s t with
+                                                            | Some s' => [s'] | None => [] end) (movable s)) frontier in
+          explore rescan f free tids (dedup [] next) (fin ++ acc)
       end
   end.
 Fixpoint seg_pairs (segs : list (nat * list (N * N))) (i : nat) : list (N * N) :=
@@ -201,7 +261,7 @@ Fixpoint waiting_at (w : list (nat * nat)) (i : nat) : nat :=
   match w with [] => 0 | (j, c) :: r => if Nat.eqb i j then c else waiting_at r i end.
 Fixpoint bools_eqb (a b : list bool) : bool :=
   match a, b with [] , [] => true | x :: r, y :: s => Bool.eqb x y && bools_eqb r s | _, _ => false end.
-Definition grant_match (g : gstep) (s : cstate) : bool :=
+Definition grant_match (started : list nat) (g : gstep) (s : cstate) : bool :=
   let '(Grant _ count segs done waiting) := g in
   let m := c_map s in
   let n := nsegs m in
@@ -211,17 +271,18 @@ Definition grant_match (g : gstep) (s : cstate) : bool :=
   forallb (fun p => Nat.ltb (fst p) n) segs &&
   bools_eqb (map (thread_done s) tids) done &&
   forallb (fun i => Nat.eqb (length (filter (fun t => negb (thread_done s t) &&
-                                              onat_eqb (acq_target n (fst (nth t (c_thr s) (Idle, [])))) (Some i)) tids))
+                                              onat_eqb (acq_target n (fst (nth t (c_thr s) (Idle, [])))) (Some i)) started))
                             (waiting_at waiting i)) (seq 0 n) &&
   forallb (fun t => negb (t_bad t)) (sm_segs m).
-Fixpoint sched_run (rescan : bool) (states : list cstate) (steps : list gstep) : list cstate :=
+Fixpoint sched_run (rescan : bool) (started : list nat) (states : list cstate) (steps : list gstep) : list cstate :=
   match steps with
   | [] => states
   | g :: rest =>
-      let '(Grant j _ _ _ _) := g in
-      sched_run rescan
-        (filter (grant_match g)
-           (flat_map (fun s => explore rescan 400 j (seq 0 (length (c_thr s))) s) states)) rest
+      let '(Grant a _ _ _ _) := g in
+      let started' := match a with Go t => if existsb (Nat.eqb t) started then started else t :: started | Rel _ => started end in
+      let free := match a with Rel j => Some j | Go _ => None end in
+      sched_run rescan started'
+        (filter (grant_match started' g) (dedup [] (explore rescan 400 free started' states []))) rest
   end.
 (* what the readers returned: per thread, in the order of their calls *)
 Definition obs_eqb (a b : obs) : bool :=
@@ -239,12 +300,14 @@ Fixpoint reads_eqb (a b : list (nat * obs)) : bool :=
 Definition reads_of (s : cstate) (tid : nat) : list (nat * obs) :=
   filter (fun p => Nat.eqb (fst p) tid) (rev (c_obs s)).
 Definition sched_check (rescan : bool) (prefix : list (N * N * Z)) (progs : list (list call))
-                       (steps : list gstep) (reads : list (nat * obs)) : bool :=
+                       (steps : list gstep) (reads : list (nat * obs)) (complete : bool) : bool :=
   let m0 := fold_left (fun m p => let '(k, v, cap) := p in sm_set_with_cap go_mix go_sidx go_eoff m k v cap)
                       prefix (new_segmap 4 0) in
-  let finals := sched_run rescan [init m0 progs] steps in
-  existsb (fun s => quiescent s &&
-                    reads_eqb (flat_map (reads_of s) (seq 0 (length progs))) reads) finals.
+  let finals := sched_run rescan [] [init m0 progs] steps in
+  (* complete: every call has returned and the readers saw what the model's readers saw;
+     otherwise the test stopped early (too many threads in front of one lock) *)
+  existsb (fun s => negb complete ||
+                    (quiescent s && reads_eqb (flat_map (reads_of s) (seq 0 (length progs))) reads)) finals.
 
 Definition check_case (c : case) : bool :=
   match c with
@@ -264,9 +327,9 @@ Definition check_case (c : case) : bool :=
       forallb (fun s => match s with Ss (SSwc _ _ cap _) _ => Z.eqb cap (snd (new_cache size)) | _ => true end) steps &&
       match seg_run (fst (new_cache size)) steps with Some m => seg_ok m | None => false end
   | CaseGo _ => true
-  | CaseSched prefix progs steps reads =>
+  | CaseSched prefix progs steps reads complete =>
       (* with the spill loop the source text has (Conc.go_rescan) *)
-      sched_check go_rescan prefix progs steps reads
+      sched_check go_rescan prefix progs steps reads complete
   end.
 
 (* ------------------------------------------------------------- the spec *)
@@ -373,18 +436,27 @@ Definition sched_cap (prefix : list (N * N * Z)) (progs : list (list call)) : op
   | c :: r => if forallb (Z.eqb c) r && (1 <=? c)%Z && negb uncapped then Some c else None
   | [] => None
   end.
-Definition grant_spec (ocap : option Z) (g : gstep) : bool :=
+Definition grant_spec (ocap : option Z) (started : nat) (g : gstep) : bool :=
   let '(Grant _ count segs done _) := g in
   let all := flat_map snd segs in
+  let returned := length (filter (fun b : bool => b) done) in
   nodupb (map fst all) &&
   forallb (fun p => forallb (fun kv => Nat.eqb (go_sidx 16 (fst kv)) (fst p)) (snd p)) segs &&
-  (if forallb (fun b : bool => b) done then Z.eqb count (Z.of_nat (length all)) else true) &&
+  (if Nat.eqb returned started then Z.eqb count (Z.of_nat (length all)) else true) &&
   match ocap with
-  | Some cap => (Z.of_nat (length all) <=? cap + Z.of_nat (length (filter negb done)))%Z
+  | Some cap => (Z.of_nat (length all) <=? cap + Z.of_nat (started - returned))%Z
   | None => true
   end.
+Fixpoint sched_spec_run (ocap : option Z) (started : list nat) (steps : list gstep) : bool :=
+  match steps with
+  | [] => true
+  | g :: rest =>
+      let '(Grant a _ _ _ _) := g in
+      let started' := match a with Go t => if existsb (Nat.eqb t) started then started else t :: started | Rel _ => started end in
+      grant_spec ocap (length started') g && sched_spec_run ocap started' rest
+  end.
 Definition sched_spec (prefix : list (N * N * Z)) (progs : list (list call)) (steps : list gstep) : bool :=
-  forallb (grant_spec (sched_cap prefix progs)) steps.
+  sched_spec_run (sched_cap prefix progs) [] steps.
 
 Definition spec_case (c : case) : bool :=
   match c with
@@ -392,5 +464,5 @@ Definition spec_case (c : case) : bool :=
   | CaseSeg _ _ _ steps => seg_spec_run [] steps
   | CaseCache _ steps => seg_spec_run [] steps
   | CaseGo _ => true
-  | CaseSched prefix progs steps _ => sched_spec prefix progs steps
+  | CaseSched prefix progs steps _ _ => sched_spec prefix progs steps
   end.
